@@ -221,6 +221,9 @@ class Evaluator(object):
         c.consts = getattr(self, 'consts', {})
         c.new_const = getattr(self, 'new_const', None)
         c.error_has_source = getattr(self, 'error_has_source', lambda v: False)
+        c.records = getattr(self, 'records', None)
+        c.obs = getattr(self, 'obs', None)
+        c.obs_names = getattr(self, 'obs_names', None)
         c.tyenv = dict(self.tyenv)
         return c
 
@@ -354,9 +357,13 @@ class Evaluator(object):
                 self.bind_pat(sp, sub, env)
         elif k == 'PStruct':
             ctor = norm_path(H.res_path(pat['res']))
+            rec = getattr(self, 'records', None)
             for name, sp in pat['fields']:
                 sub = None
-                if val is not None:
+                if val is not None and rec and ctor in rec and name in rec[ctor]:
+                    i_ = rec[ctor].index(name)
+                    sub = val[1][i_] if (val[0] == 'tup' and i_ < len(val[1])) else ('field', val, str(i_))
+                elif val is not None:
                     if val[0] == 'struct' and val[1] == ctor and name in dict(val[2]):
                         sub = dict(val[2])[name]
                     else:
@@ -586,6 +593,16 @@ class Evaluator(object):
             return ('lit', H.lit_str(node['v']))
         if k == 'Field':
             base = self.eval(node['e'], env, guards, fn, chain)
+            rec = getattr(self, 'records', None)
+            if rec:
+                import canon
+                order = rec.get(norm_path(canon.strip_ty(node['e'].get('ty') or '')))
+                if order and node['name'] in order:
+                    # a private struct the oracle vocabulary does not know is a record: its fields are positions
+                    i_ = order.index(node['name'])
+                    if base[0] == 'tup' and i_ < len(base[1]):
+                        return base[1][i_]
+                    return ('field', base, str(i_))
             if base[0] == 'struct' and node['name'] in dict(base[2]):
                 return dict(base[2])[node['name']]
             if base[0] == 'tup' and node['name'].isdigit() and int(node['name']) < len(base[1]):
@@ -603,6 +620,10 @@ class Evaluator(object):
             if 'base' in node:
                 base = self.eval(node['base'], env, guards, fn, chain)
             sp_ = norm_path(H.res_path(node['res']))
+            rec = getattr(self, 'records', None)
+            if rec and sp_ in rec and base is None and set(n for n, _ in fs) == set(rec[sp_]):
+                d_ = dict(fs)
+                return ('tup', tuple(d_[n] for n in rec[sp_]))
             if sp_ == 'std::ops::Range' and base is None and dict(fs).get('start') == ('lit', '0'):
                 # `0..n` and `..n` are the same range of an unsigned index
                 sp_, fs = 'std::ops::RangeTo', [(n, v) for n, v in fs if n != 'start']
